@@ -129,6 +129,9 @@ Inductive eff :=
 | FSpawn (id : nat)                               (* start_background_task(self._handle_reconnect) *)
 | FTaskEnd (id : nat) (o : outcome)               (* _handle_reconnect returned (outcome is ghost) *)
 | FResult (r : callres)                           (* how connect() returned to the application *)
+| FEmit (ok : bool)                               (* emit() returned (true) / raised BadNamespaceError (false) *)
+| FSendEvent (n : ns) (id : nat)                  (* EVENT packet with ack id handed to eio.send *)
+| FCallback (k : nat)                             (* the callback given to the k-th emit-with-callback was invoked *)
 | FLost                                           (* environment: the transport was connected when it was lost *)
 | FOther.                                         (* anything else an observer may see; never produced by the model *)
 
@@ -146,30 +149,41 @@ Record state := mkState {
   aflag     : bool;           (* flag of self._reconnect_abort *)
   rcl       : nat;            (* occurrences of self in base_client.reconnecting_clients *)
   tasks     : list task;      (* reconnect tasks that have not returned yet *)
-  next_id   : nat             (* ghost: number of tasks started so far *)
+  next_id   : nat;            (* ghost: number of tasks started so far *)
+  cbs       : list (ns * (nat * list (nat * nat)));
+                              (* self.callbacks: namespace -> (next value of the itertools.count kept under
+                                 key 0, [(ack id, callback)]) *)
+  next_cb   : nat             (* ghost: number of emits with a callback so far (names the callbacks) *)
 }.
 
 Definition init : state :=
-  mkState false EDisc [] (mkArgs 0 0 0 0 0) [] None false 0 [] 0.
+  mkState false EDisc [] (mkArgs 0 0 0 0 0) [] None false 0 [] 0 [] 0.
 
 Definition set_connected (st : state) (b : bool) :=
-  mkState b (est st) (nss st) (args st) (cns st) (rtask st) (aflag st) (rcl st) (tasks st) (next_id st).
+  mkState b (est st) (nss st) (args st) (cns st) (rtask st) (aflag st) (rcl st) (tasks st) (next_id st) (cbs st) (next_cb st).
 Definition set_est (st : state) (e : eio_state) :=
-  mkState (connected st) e (nss st) (args st) (cns st) (rtask st) (aflag st) (rcl st) (tasks st) (next_id st).
+  mkState (connected st) e (nss st) (args st) (cns st) (rtask st) (aflag st) (rcl st) (tasks st) (next_id st) (cbs st) (next_cb st).
 Definition set_nss (st : state) (l : list ns) :=
-  mkState (connected st) (est st) l (args st) (cns st) (rtask st) (aflag st) (rcl st) (tasks st) (next_id st).
+  mkState (connected st) (est st) l (args st) (cns st) (rtask st) (aflag st) (rcl st) (tasks st) (next_id st) (cbs st) (next_cb st).
 Definition set_conn_args (st : state) (a : cargs) (l : list ns) :=
-  mkState (connected st) (est st) (nss st) a l (rtask st) (aflag st) (rcl st) (tasks st) (next_id st).
+  mkState (connected st) (est st) (nss st) a l (rtask st) (aflag st) (rcl st) (tasks st) (next_id st) (cbs st) (next_cb st).
 Definition set_rtask (st : state) (r : option nat) :=
-  mkState (connected st) (est st) (nss st) (args st) (cns st) r (aflag st) (rcl st) (tasks st) (next_id st).
+  mkState (connected st) (est st) (nss st) (args st) (cns st) r (aflag st) (rcl st) (tasks st) (next_id st) (cbs st) (next_cb st).
 Definition set_aflag (st : state) (b : bool) :=
-  mkState (connected st) (est st) (nss st) (args st) (cns st) (rtask st) b (rcl st) (tasks st) (next_id st).
+  mkState (connected st) (est st) (nss st) (args st) (cns st) (rtask st) b (rcl st) (tasks st) (next_id st) (cbs st) (next_cb st).
 Definition set_rcl (st : state) (n : nat) :=
-  mkState (connected st) (est st) (nss st) (args st) (cns st) (rtask st) (aflag st) n (tasks st) (next_id st).
+  mkState (connected st) (est st) (nss st) (args st) (cns st) (rtask st) (aflag st) n (tasks st) (next_id st) (cbs st) (next_cb st).
 Definition set_tasks (st : state) (l : list task) :=
-  mkState (connected st) (est st) (nss st) (args st) (cns st) (rtask st) (aflag st) (rcl st) l (next_id st).
+  mkState (connected st) (est st) (nss st) (args st) (cns st) (rtask st) (aflag st) (rcl st) l (next_id st) (cbs st) (next_cb st).
 Definition set_next_id (st : state) (n : nat) :=
-  mkState (connected st) (est st) (nss st) (args st) (cns st) (rtask st) (aflag st) (rcl st) (tasks st) n.
+  mkState (connected st) (est st) (nss st) (args st) (cns st) (rtask st) (aflag st) (rcl st) (tasks st) n (cbs st) (next_cb st).
+
+Definition set_cbs (st : state) (c : list (ns * (nat * list (nat * nat)))) :=
+  mkState (connected st) (est st) (nss st) (args st) (cns st) (rtask st) (aflag st) (rcl st) (tasks st)
+          (next_id st) c (next_cb st).
+Definition set_next_cb (st : state) (n : nat) :=
+  mkState (connected st) (est st) (nss st) (args st) (cns st) (rtask st) (aflag st) (rcl st) (tasks st)
+          (next_id st) (cbs st) n.
 
 Definition is_conn (e : eio_state) : bool := match e with EConn => true | _ => false end.
 Definition is_some {A} (o : option A) : bool := match o with Some _ => true | None => false end.
@@ -199,7 +213,8 @@ Definition finals (l : list ns) : list eff := map (fun n => FHandler HFinal n No
              self._trigger_event('disconnect', n, reason)
              if not will_reconnect: self._trigger_event('__disconnect_final', n)
          self.namespaces = {} ; self.connected = False
-     self.callbacks = {} ; self._binary_packet = None ; self.sid = None      (not C10 state)
+     self.callbacks = {}                                   (unconditionally)
+     self._binary_packet = None ; self.sid = None          (not C10 state)
      if will_reconnect and not self._reconnect_task:
          self._reconnect_task = self.start_background_task(self._handle_reconnect)
    Returns the id of the task it started, if any. *)
@@ -208,12 +223,13 @@ Definition will_reconnect (p : params) (st : state) : bool := reconnection p && 
 Definition handle_eio_disconnect (p : params) (st : state) (why : reason)
   : state * list eff * option nat :=
   let will := will_reconnect p st in
-  let '(st1, e1) :=
+  let '(st0, e1) :=
     if connected st then
       (set_connected (set_nss st []) false,
        flat_map (fun n => FHandler HDisconnect n (Some why) ::
                           (if will then [] else [FHandler HFinal n None])) (nss st))
     else (st, []) in
+  let st1 := set_cbs st0 [] in
   if will && negb (is_some (rtask st1)) then
     let id := next_id st1 in
     (set_next_id (set_rtask st1 (Some id)) (S id), e1 ++ [FSpawn id], Some id)
@@ -273,7 +289,8 @@ Fixpoint connect_replies (auth : nat) (l : list ns) (rs : list reply) (cur : lis
      try: self.eio.connect(real_url, headers=, transports=, engineio_path=)       (ValueError unless state == 'disconnected')
      except engineio ConnectionError: trigger 'connect_error' for every connection namespace; raise ConnectionError
      wait until no more answers arrive
-     if set(self.namespaces) != set(self.connection_namespaces): self.disconnect(); raise ConnectionError
+     if set(self.namespaces) != set(self.connection_namespaces):
+         self.disconnect(); self.namespaces = {}; raise ConnectionError
      self.connected = True *)
 Definition do_connect (p : params) (st : state) (a : cargs) (l : list ns) (o : conn_outcome)
   : state * list eff * callres :=
@@ -291,7 +308,7 @@ Definition do_connect (p : params) (st : state) (a : cargs) (l : list ns) (o : c
             if set_eq cur l then (set_connected st2 true, call :: e, ROk)
             else
               let '(st3, e3) := api_disconnect p st2 in
-              (st3, call :: e ++ e3, RConnectionError)
+              (set_nss st3 [], call :: e ++ e3, RConnectionError)
         end
     | _ => (st1, [call], RValueError)
     end.
@@ -380,6 +397,21 @@ Fixpoint wake_all (p : params) (st : state) (fuel : nat) : state * list eff :=
 Definition abort_all (p : params) (st : state) : state * list eff :=
   wake_all p (set_aflag st true) (List.length (tasks st)).
 
+(* ---- self.callbacks ---- *)
+Definition cbtab := (nat * list (nat * nat))%type.
+Fixpoint cb_find (n : ns) (c : list (ns * cbtab)) : option cbtab :=
+  match c with
+  | [] => None
+  | (m, t) :: r => if Nat.eqb n m then Some t else cb_find n r
+  end.
+Definition cb_lookup (n : ns) (c : list (ns * cbtab)) : cbtab :=
+  match cb_find n c with Some t => t | None => (1, []) end.       (* {0: itertools.count(1)} *)
+Fixpoint cb_store (n : ns) (t : cbtab) (c : list (ns * cbtab)) : list (ns * cbtab) :=
+  match c with
+  | [] => [(n, t)]
+  | (m, t0) :: r => if Nat.eqb n m then (m, t) :: r else (m, t0) :: cb_store n t r
+  end.
+
 (* ---- events ---- *)
 Inductive event :=
 | Connect (a : cargs) (l : list ns) (o : conn_outcome)   (* the application calls connect() *)
@@ -389,7 +421,9 @@ Inductive event :=
 | ServerClose                    (* the server closes the engine.io session (CLOSE packet) *)
 | Shutdown                       (* the application calls shutdown() *)
 | Sigint                         (* base_client.signal_handler: abort every client in reconnecting_clients *)
-| Timeout (i : nat) (o : conn_outcome) (r : Q) (race : bool).   (* back-off wait of live task i expires *)
+| Timeout (i : nat) (o : conn_outcome) (r : Q) (race : bool)    (* back-off wait of live task i expires *)
+| EmitCb (n : ns)                (* the application calls emit(..., namespace=n, callback=<fresh function>) *)
+| ServerAck (n : ns) (id : nat). (* the server sends an ACK packet for namespace n with this id *)
 
 Definition step (p : params) (st : state) (ev : event) : state * list eff :=
   match ev with
@@ -398,8 +432,9 @@ Definition step (p : params) (st : state) (ev : event) : state * list eff :=
   | Loss r => transport_error p st r
   | Disconnect => api_disconnect p st
   | ServerDisconnect n =>
-      (* _handle_disconnect(namespace), reached through the 'message' handler *)
-      if is_conn (est st) && connected st then
+      (* _handle_disconnect(namespace), reached through the 'message' handler:
+           if not self.connected and namespace not in self.namespaces: return *)
+      if is_conn (est st) && (connected st || mem n (nss st)) then
         let e := [FHandler HDisconnect n (Some RServer); FHandler HFinal n None] in
         let l := remove_ns n (nss st) in
         match l with
@@ -421,6 +456,33 @@ Definition step (p : params) (st : state) (ev : event) : state * list eff :=
   | Sigint =>
       if Nat.ltb 0 (rcl st) then abort_all p st else (st, [])
   | Timeout i o r race => task_timeout p st i o r race
+  | EmitCb n =>
+      (*  if namespace not in self.namespaces: raise BadNamespaceError
+          id = self._generate_ack_id(namespace, callback):
+              if namespace not in self.callbacks: self.callbacks[namespace] = {0: itertools.count(1)}
+              id = next(self.callbacks[namespace][0]); self.callbacks[namespace][id] = callback
+          self._send_packet(EVENT, namespace, id)            (eio.send drops unless connected) *)
+      if mem n (nss st) then
+        let '(nxt, entries) := cb_lookup n (cbs st) in
+        let k := next_cb st in
+        (set_next_cb (set_cbs st (cb_store n (S nxt, entries ++ [(nxt, k)]) (cbs st))) (S k),
+         (if is_conn (est st) then [FSendEvent n nxt] else []) ++ [FEmit true])
+      else (st, [FEmit false])
+  | ServerAck n id =>
+      (* _handle_ack: callback = self.callbacks[namespace][id] (KeyError, or the id generator under
+         key 0: ignored); del self.callbacks[namespace][id]; callback(data...) *)
+      if is_conn (est st) then
+        match cb_find n (cbs st) with
+        | Some (nxt, entries) =>
+            match find (fun e => Nat.eqb (fst e) id) entries with
+            | Some (_, k) =>
+                (set_cbs st (cb_store n (nxt, filter (fun e => negb (Nat.eqb (fst e) id)) entries) (cbs st)),
+                 [FCallback k])
+            | None => (st, [])
+            end
+        | None => (st, [])
+        end
+      else (st, [])
   end.
 
 Fixpoint run_from (p : params) (st : state) (evs : list event) : state * list (list eff) :=
